@@ -28,7 +28,7 @@ from mc.ref import c06c12_ref as R
 ID = "C06"
 LEVEL = "exploration"
 DESIGN_REF = "DESIGN.md section 5, C06"
-RULE = ("every strictly increasing sub-sequence (2..6 edges quick, 2..9 thorough, 10..12 from pools "
+RULE = ("every strictly increasing sub-sequence (2..6 edges quick, 2..9 thorough, 10..12 - thorough 6..12 - from pools "
         "of 12) of every edge pool is an edge array (duplicates between pools removed); the index law "
         "is executed for every coordinate of the pool (numbers of the pool, their float neighbours, "
         "midpoints, far outside, +-inf), single fills for every (array, coordinate, weight, initial "
@@ -57,7 +57,7 @@ N_ARRAY_SHARDS = 32
 def describe(tier):
     n = len(R.edge_arrays(tier))
     return ("%d distinct 1-d edge arrays from %d pools of 9 numbers (sub-sequences of length 2..%d) "
-            "and %d pools of 12 (length 10..12); about 40 coordinates each; weights %r; two initial "
+            "and %d pools of 12 (length 10..12 quick, 6..12 thorough); about 40 coordinates each; weights %r; two initial "
             "states; %d multi-dimensional configurations; fill sequences of length <= 3"
             % (n, len(R.POOLS9), 9 if tier == "thorough" else 6, len(R.POOLS12), WEIGHTS,
                len(_md_configs(tier))))
